@@ -33,7 +33,7 @@ let unres = function Model.Ok x -> x | _ -> raise Panicked
 let rec drop n l = if n <= 0 then l else match l with [] -> [] | _ :: r -> drop (n - 1) r
 
 (* executes one request list on the game and reports the saves to the model *)
-let execute (g : game) (s : Model.st_state) (reqs : Model.request list) (noisy : int list) : Model.st_state * string * string list =
+let execute (g : game) (s : Model.st_state) (reqs : Model.request list) (noisy : (int * int) list) : Model.st_state * string * string list =
   let out = ref [] and bad = ref [] and s = ref s in
   List.iter (fun r ->
     match r with
@@ -41,9 +41,12 @@ let execute (g : game) (s : Model.st_state) (reqs : Model.request list) (noisy :
         let f = iz f in
         out := ("S" ^ string_of_int f) :: !out;
         if f <> g.frame then bad := Printf.sprintf "save-frame:%d@%d" f g.frame :: !bad;
-        let n = if List.mem g.frame noisy then begin
+        (* noise@F: every save of F differs; noise@F#k: only the k-th save of F differs *)
+        let n = match List.assoc_opt g.frame noisy with
+          | Some only ->
             let k = (try Hashtbl.find g.noise g.frame with Not_found -> 0) + 1 in
-            Hashtbl.replace g.noise g.frame k; k end else 0 in
+            Hashtbl.replace g.noise g.frame k; if only = 0 || only = k then k else 0
+          | None -> 0 in
         let cs = checksum g.tl n in
         g.cells.(((f mod (g.window + 1)) + g.window + 1) mod (g.window + 1)) <- Some (g.frame, g.tl);
         s := unres (Model.st_saved !s (zi f) (Some (zi cs)))
@@ -98,7 +101,12 @@ let handle (_dbg : bool) (toks : string list) : string =
                | Model.Panic -> raise Panicked)
           | "advance" :: rest ->
               let noisy = List.filter_map (fun t ->
-                if String.length t > 6 && String.sub t 0 6 = "noise@" then Some (int_of_string (String.sub t 6 (String.length t - 6))) else None) rest in
+                if String.length t > 6 && String.sub t 0 6 = "noise@" then
+                  (match String.split_on_char '#' (String.sub t 6 (String.length t - 6)) with
+                   | [f; k] -> Some (int_of_string f, int_of_string k)
+                   | [f] -> Some (int_of_string f, 0)
+                   | _ -> None)
+                else None) rest in
               let (s1, o) = unres (Model.st_advance_frame (fun x -> x) s) in
               st := Some s1;
               (match o with
